@@ -53,7 +53,7 @@ def observe(case, variant=0):
                 out = Imputer(method=p["method"], **kw).fit_transform(s)
             elif op == "acf":
                 from sktime.transformations.series.acf import AutoCorrelationTransformer
-                out = AutoCorrelationTransformer(n_lags=p["k"]).fit_transform(s)
+                out = AutoCorrelationTransformer(n_lags=p["k"], adjusted=bool(p.get("adj"))).fit_transform(s)
             else:
                 from sktime.transformations.series.adapt import TabularToSeriesAdaptor
                 from sklearn.preprocessing import MinMaxScaler
@@ -70,7 +70,10 @@ def observe(case, variant=0):
             Xn = from_nested_to_3d_numpy(Xn)
         if op == "pad":
             from sktime.transformations.panel.padder import PaddingTransformer
-            out = mk(PaddingTransformer, dict(pad_length=p["L"] or None, fill_value=p["fill"]), dict(pad_length=50, fill_value=-9))
+            if p.get("half"):      # a fractional fill value for a panel whose cells are of integer dtype
+                Xn = Xn.applymap(lambda c: c.astype("int64")) if isinstance(Xn, pd.DataFrame) else Xn.astype("int64")
+            out = mk(PaddingTransformer, dict(pad_length=p["L"] or None, fill_value=p["fill"] + (0.5 if p.get("half") else 0)),
+                     dict(pad_length=50, fill_value=-9))
             out = fitted(out).transform(Xn) if variant % 2 or p.get("fit") else out.fit_transform(Xn)
         elif op == "truncate":
             from sktime.transformations.panel.truncation import TruncationTransformer
@@ -139,7 +142,7 @@ def val(i, c, t, salt):
     return ((7 * i + 3 * c + 5 * t * t + t + 4 * salt * (t + i)) % 11) - 3
 
 
-NOP = {"L": 0, "fill": 0, "lo": 0, "hi": 0, "k": 1, "w": 1, "method": "", "const": 0, "iv": [], "fit": 0}
+NOP = {"L": 0, "fill": 0, "lo": 0, "hi": 0, "k": 1, "w": 1, "method": "", "const": 0, "iv": [], "fit": 0, "half": 0, "adj": 0}
 
 
 def random_case(rng):
@@ -161,6 +164,7 @@ def random_case(rng):
     if op == "pad":
         p["L"] = rng.choice([0, max(lens), max(lens) + rng.randint(1, 4)])
         p["fill"] = rng.choice([0, -1, 5])
+        p["half"] = 1 if rng.random() < 0.3 else 0
         if p["L"] == 0 and rng.random() < 0.5:
             p["fit"] = max(lens) + rng.randint(0, 3)
     elif op == "truncate":
@@ -188,6 +192,7 @@ def random_case(rng):
             X[0][0][pos] = MISS
     elif op == "acf":
         p["k"] = rng.randint(1, 3)
+        p["adj"] = rng.choice([0, 1])
     if op in ("acf", "minmax") and len(set(X[0][0])) == 1:
         X[0][0][0] += 1
     return {"op": op, "p": p, "X": X}
